@@ -100,13 +100,16 @@ func newTemplate(set *TemplateSet, name string, isTplString bool, tpl []byte) (*
 	return t, nil
 }
 
-func (tpl *Template) newContextForExecution(context Context) (*Template, *ExecutionContext, error) {
-	// Issue #94 https://github.com/flosch/pongo2/issues/94
-	// If an application configures pongo2 template to trim_blocks,
-	// the first newline after a template tag is removed automatically (like in PHP).
-	// The options may be set after compilation, so the tokens are adjusted on the
-	// first execution that sees the option - and only then, otherwise every
-	// further execution would strip one more newline.
+// applyBlockOptions adjusts the template's tokens according to its
+// TrimBlocks/LStripBlocks options.
+//
+// Issue #94 https://github.com/flosch/pongo2/issues/94
+// If an application configures pongo2 template to trim_blocks,
+// the first newline after a template tag is removed automatically (like in PHP).
+// The options may be set after compilation, so the tokens are adjusted on the
+// first execution that sees the option - and only then, otherwise every
+// further execution would strip one more newline.
+func (tpl *Template) applyBlockOptions() {
 	if tpl.Options.LStripBlocks {
 		tpl.lstripBlocksOnce.Do(func() {
 			prev := &Token{Typ: TokenHTML, Val: "\n"}
@@ -130,6 +133,15 @@ func (tpl *Template) newContextForExecution(context Context) (*Template, *Execut
 				prev = t
 			}
 		})
+	}
+}
+
+func (tpl *Template) newContextForExecution(context Context) (*Template, *ExecutionContext, error) {
+	// Every template of the inheritance chain takes part in the execution; each
+	// one follows its own options, no matter through which entry point
+	// (Execute*, ExecuteBlocks) it is reached first.
+	for t := tpl; t != nil; t = t.parent {
+		t.applyBlockOptions()
 	}
 
 	// Determine the parent to be executed (for template inheritance)
